@@ -132,4 +132,6 @@ ConfReport ==
   /\ PrintT(<<"COUNTS", ToJson(TLCGet(3))>>)
   /\ PrintT(<<"DIFFS", ToJson(TLCGet(1))>>)
   /\ TLCGet(2) - 1 = Len(TraceLog)
+\* the stake unit of "big unit" histories (see BigNat!UnitLimbs): 10^30
+BigUnitLimbs == 10
 =============================================================================
